@@ -57,6 +57,7 @@ def run(cx):
     from .. import rules_s as S
     _run3(cx)
     S.carry_chain(cx, 'A-CARRY', ('gm_sm2::',), 4)
+    S.carry_by_comparison(cx, 'A-CARRY', ('gm_sm2::',))
 
 
 _run_curve = run
